@@ -31,7 +31,7 @@ BUDGET_S = {'quick': 240, 'thorough': 900}
 
 
 def bounds(tier):
-    return {'terms': len(terms()), 'generated_terms': '%d seeded well-typed terms of depth <= 3 (type-directed grammar)' % (24 if tier == 'quick' else 400), 'max_sites_exhaustive': 9, 'seeded_masks_for_larger_terms': 256 if tier == 'quick' else 2048, 'illtyped_skeletons': len(ill_skeletons())}
+    return {'terms': len(terms()), 'generated_terms': '%d seeded well-typed terms of depth <= 3 (type-directed grammar)' % (24 if tier == 'quick' else 400), 'max_sites_exhaustive': 9, 'seeded_masks_for_larger_terms': 256 if tier == 'quick' else 2048, 'illtyped_skeletons': len(ill_skeletons()), 'mutated_skeletons': '%d seeded (one leaf of a generated term replaced by a declared variable, all types erased)' % (600 if tier == 'quick' else 40000)}
 
 
 def setup(tier, seed):
@@ -375,6 +375,97 @@ def run_terms(u, out):
     out['samples'].append({'term': str(orig), 'annotation_sites': k, 'masks': len(masks)})
 
 
+def mutate(rnd, t):
+    """Replace one leaf of t by a declared variable (possibly of another type) or swap the arguments of one application,
+    then erase every type: the skeleton may or may not be typable."""
+    from kernel.term import Var, Comb, Abs, Bound
+    leaves = []
+
+    def walk(u, path):
+        if u.is_var() or u.is_const() or u.is_svar():
+            leaves.append(path)
+        elif u.is_comb():
+            walk(u.fun, path + (0,))
+            walk(u.arg, path + (1,))
+        elif u.is_abs():
+            walk(u.body, path + (2,))
+    walk(t, ())
+    target = rnd.choice(leaves)
+    repl = Var(rnd.choice(['x', 'p', 'a', 'f', 'q']), None)
+
+    def rec(u, path):
+        if path == target:
+            return repl
+        if u.is_var():
+            return Var(u.name, None)
+        if u.is_svar():
+            from kernel.term import SVar
+            return SVar(u.name, None)
+        if u.is_const():
+            from kernel.term import Const
+            return Const(u.name, None)
+        if u.is_comb():
+            return Comb(rec(u.fun, path + (0,)), rec(u.arg, path + (1,)))
+        if u.is_abs():
+            return Abs(u.var_name, None, rec(u.body, path + (2,)))
+        return Bound(u.n)
+    return rec(t, ())
+
+
+def run_mutants(u, out):
+    """Possibly ill-typed skeletons obtained from generated terms: inference must fail with its own error or return a
+    well-typed term with one type per variable, declared types kept and no internal type variables."""
+    from syntax import infertype
+    from syntax.infertype import TypeInferenceException
+    from logic import context
+    _, tier, seed, lo, n = u
+    terms()
+    for k in range(lo, lo + n):
+        rnd = random.Random('c08m-%s-%s' % (seed, k))
+        orig = gen_term(rnd)
+        sk = mutate(rnd, orig)
+        out['evals'] += 1
+        if os.environ.get('VERIF_TWIN'):
+            if not out['cex']:
+                out['cex'].append({'kind': 'twin', 'part': 'mut'})
+            continue
+        import copy
+        with context.fresh_context(vars=dict(DECL)):
+            try:
+                res = infertype.type_infer(sk)
+            except TypeInferenceException:
+                continue
+            except Exception as e:
+                out['cex'].append({'kind': 'infer-exception', 'part': 'mut', 'seed': seed, 'k': k, 'detail': 'mutated skeleton of %r: %s: %s' % (orig, type(e).__name__, str(e)[:80])})
+                continue
+        out['keys'].add('mut|%s|%d' % (seed, k))
+        bad = None
+        if any(mentions_internal(T) for T in all_types(res)):
+            bad = ('infer-internal', 'still contains internal type variables')
+        elif ind_type(res) is None:
+            bad = ('infer-illtyped', 'does not type-check')
+        else:
+            vt = {}
+
+            def coll(t):
+                if t.is_var() or t.is_svar():
+                    vt.setdefault(('?' if t.is_svar() else '') + t.name, set()).add(repr(t.T))
+                elif t.is_comb():
+                    coll(t.fun)
+                    coll(t.arg)
+                elif t.is_abs():
+                    coll(t.body)
+            coll(res)
+            for nm, Ts in vt.items():
+                if len(Ts) > 1:
+                    bad = ('infer-variable-two-types', '%s occurs at types %s' % (nm, sorted(Ts)))
+                elif nm in DECL and repr(DECL[nm]) not in Ts:
+                    bad = ('infer-declared', 'declared variable %s :: %s got type %s' % (nm, DECL[nm], sorted(Ts)))
+        if bad:
+            out['cex'].append({'kind': bad[0], 'part': 'mut', 'seed': seed, 'k': k, 'detail': 'mutated skeleton %r is inferred as %r, which %s' % (sk, res, bad[1])})
+    out['samples'].append({'mutated_skeleton': repr(sk)[:200]})
+
+
 def run_ill(u, out):
     from syntax import infertype
     from syntax.infertype import TypeInferenceException
@@ -420,13 +511,17 @@ def run_ill(u, out):
 def units(tier, seed):
     us = [('terms', tier, seed, i) for i in range(len(terms()))] + [('ill', tier, seed)]
     us += [('terms', tier, seed, ('gen', j)) for j in range(24 if tier == 'quick' else 400)]
+    nm = 600 if tier == 'quick' else 40000
+    us += [('mut', tier, seed, lo, 100) for lo in range(0, nm, 100)]
     random.Random(seed).shuffle(us)
     return us
 
 
 def run_unit(u):
     out = {'evals': 0, 'keys': set(), 'cex': [], 'samples': [], 'inconclusive': 0, 'stats': {}}
-    if u[0] == 'terms':
+    if u[0] == 'mut':
+        run_mutants(u, out)
+    elif u[0] == 'terms':
         run_terms(u, out)
     else:
         run_ill(u, out)
@@ -437,6 +532,11 @@ def run_unit(u):
 def replay(c):
     if c['kind'] == 'twin':
         return True, 'twin'
+    if c['part'] == 'mut':
+        out = {'evals': 0, 'keys': set(), 'cex': [], 'samples': [], 'inconclusive': 0, 'stats': {}}
+        run_mutants(('mut', 'quick', c['seed'], c['k'], 1), out)
+        m = [x for x in out['cex'] if x['kind'] == c['kind']]
+        return bool(m), m[0]['detail'] if m else 'not reproduced'
     if c['part'] == 'ill':
         out = {'evals': 0, 'keys': set(), 'cex': [], 'samples': [], 'inconclusive': 0, 'stats': {}}
         run_ill(None, out)
